@@ -3,6 +3,10 @@ package contract
 import "time"
 
 func GetMaxGlobalError(elapsed time.Duration, minError float64, flatness, skipPeriod time.Duration) float64 {
+	if elapsed <= skipPeriod {
+		// the whole skip period tolerates any error (also when flatness is shorter than the skip period)
+		return 1
+	}
 	maxErr := float64(flatness) / float64(elapsed+flatness-skipPeriod)
 	if maxErr > 1 {
 		return 1
